@@ -93,6 +93,12 @@ MUTANTS = {
     'unregister_base': (P + 'trace_handlers/bsd.py', "    'BSC_wait4': handle_wait4,\n", "", ['C17']),
     'name_not_in_table': (P + 'trace_handlers/mach.py', "    'MACH_WAIT': handle_mach_wait,", "    'MACH_WAITING': handle_mach_wait,", ['C17']),
     'family_clash': (P + 'trace_handlers/turnstile.py', "handlers = {", "handlers = {\n    'MACH_WAIT': None,", ['C17']),
+    'log_key_swap': (P + 'os_log_event.py', "parsed_event['sender_image_path'] = log_strings[event.pop('sip')]", "parsed_event['process_image_path'] = log_strings[event.pop('sip')]", ['C16']),
+    'log_pcstyle_bits': (P + 'os_log_event.py', "        'pc_style' / BitsInteger(3),\n        'has_current_aid' / Flag,", "        'has_current_aid' / Flag,\n        'pc_style' / BitsInteger(3),", ['C16']),
+    'log_usec_dropped': (P + 'os_log_event.py', "datetime.fromtimestamp(unix_date['sec'] + (unix_date['usec'] / 10 ** 6),", "datetime.fromtimestamp(unix_date['sec'] + (unix_date['usec'] // 10 ** 6),", ['C16']),
+    'log_dm_first_segment_only': (P + 'os_log_event.py', "for seg in decomposed['seg']]", "for seg in decomposed['seg'][:1]]", ['C16']),
+    'log_bt_reversed': (P + 'os_log_event.py', "                for level in event.pop('bt')", "                for level in reversed(event.pop('bt'))", ['C16']),
+    'log_local_time': (P + 'os_log_event.py', "                                                           tz=timezone.utc)", "                                                           tz=None).replace(tzinfo=timezone.utc)", ['C16']),
 }
 
 
